@@ -4,13 +4,27 @@
  * symbolic executor does not finish, whereas a loop is cut by the unwinding bound (harness_unwind) and reported.
  * With a concrete size the loop unrolls exactly.  Every byte access is checked by CBMC / ASan as usual. */
 #include <stddef.h>
+#include "verif.h"
+/* Optional guarded region: a harness may register a buffer that is a MEMBER of a larger object (CBMC and ASan only
+ * see the bounds of the enclosing object).  Every memcpy / memmove whose source or destination starts inside the
+ * region must then stay inside it. */
+const unsigned char *VERIF_mm_guard_base; size_t VERIF_mm_guard_len;
+static void mm_guard(const unsigned char *p, size_t n) {
+#ifndef REPLAY
+	if (VERIF_mm_guard_base == NULL || !__CPROVER_same_object(p, VERIF_mm_guard_base)) return;   /* relational operators only within one object */
+#endif
+	if (VERIF_mm_guard_base != NULL && n > 0 && p >= VERIF_mm_guard_base && p < VERIF_mm_guard_base + VERIF_mm_guard_len)
+		CHECK((size_t)(p - VERIF_mm_guard_base) + n <= VERIF_mm_guard_len, "MEMGUARD memcpy/memmove stays inside the guarded buffer (no access outside the buffer)");
+}
 void *memcpy(void *dst, const void *src, size_t n) {
 	unsigned char *d = (unsigned char *)dst; const unsigned char *s = (const unsigned char *)src;
+	mm_guard(s, n); mm_guard(d, n);
 	for (size_t i = 0; i < n; i++) d[i] = s[i];
 	return dst;
 }
 void *memmove(void *dst, const void *src, size_t n) {
 	unsigned char *d = (unsigned char *)dst; const unsigned char *s = (const unsigned char *)src;
+	mm_guard(s, n); mm_guard(d, n);
 	if ((const unsigned char *)d <= s) { for (size_t i = 0; i < n; i++) d[i] = s[i]; }
 	else { for (size_t i = n; i > 0; i--) d[i - 1] = s[i - 1]; }
 	return dst;
